@@ -118,11 +118,19 @@ C13At(rec, j) ==
        /\ \A q \in 1..Len(ob[k].tree) : C13Node(rec, t, ob[k].tree, q)
 
 -----------------------------------------------------------------------------
+(* C14: a snapshot computed with the significant-times cache renders like the one computed without:
+   regions that have no content and paint nothing are ignored on both sides                         *)
+Painting(ob) == LET p == SelectSeq(ob, LAMBDA rg : rg.paints = 1)
+                IN  [k \in 1..Len(p) |-> [rid |-> p[k].rid, leaves |-> p[k].leaves, containers |-> p[k].containers, digest |-> p[k].digest]]
+C14At(rec, j) == Chk(Painting(rec.obs[j]) = Painting(rec.obsc[j]), rec.id, rec.times[j], "c14_cached_renders_differently")
+
+-----------------------------------------------------------------------------
 CheckRec(r) ==
   LET rec == Recs[r] IN
   /\ IF "c01" \in Families THEN \A j \in 1..Len(rec.times) : C01At(rec, j) ELSE TRUE
   /\ IF "c02" \in Families THEN C02(rec) ELSE TRUE
   /\ IF "c13" \in Families THEN \A j \in 1..Len(rec.times) : C13At(rec, j) ELSE TRUE
+  /\ IF "c14" \in Families THEN \A j \in 1..Len(rec.times) : C14At(rec, j) ELSE TRUE
 
 B == 8
 Min2(a, b) == IF a < b THEN a ELSE b
